@@ -336,6 +336,34 @@ def run_qubit(case, ctx):
         raised = True
     ctx.check("hamiltonian_attribute_mismatch", raised == should_raise, "attribute mismatch handling of QubitHamiltonian addition is wrong",
               {"h2": [h2.mapping, h2.up_then_down], "raised": raised})
+    # the in-place forms: a refused operation leaves the left operand as it was; an accepted one gives the algebraic result, also when both
+    # operands are the same QubitHamiltonian object (Tangelo's own __isub__ / __iadd__ run before openfermion's)
+    for sym in ("+=", "-="):
+        ta_ = gen.random_qubit_terms(pr, NQ, pr.randint(1, 3))
+        tb_ = gen.random_qubit_terms(pr, NQ, pr.randint(1, 3))
+        ha, hb = mk_qubit("th", ta_, ("JW", False)), mk_qubit("th", tb_, (h2.mapping, h2.up_then_down))
+        A0, B0, sa0, sb0 = qmatop(ha), qmatop(hb), snap(ha), snap(hb)
+        try:
+            if sym == "+=":
+                ha += hb
+            else:
+                ha -= hb
+            raised = False
+        except RuntimeError:
+            raised = True
+        if raised:
+            ctx.check("hamiltonian_attribute_mismatch", should_raise and snap(ha) == sa0 and snap(hb) == sb0,
+                      f"a refused in-place {sym} between annotated Hamiltonians changed an operand (or was refused although the annotations agree)",
+                      {"a": [[list(map(list, t)), c] for t, c in ta_.items()], "b": [[list(map(list, t)), c] for t, c in tb_.items()], "op": sym,
+                       "left_after": snap(ha)})
+        else:
+            expm_ = A0 + B0 if sym == "+=" else A0 - B0
+            ctx.check("qubit_value", (not should_raise) and refsim.dist(qmatop(ha), expm_) < 1e-8 and snap(hb) == sb0,
+                      f"in-place {sym} between annotated Hamiltonians is wrong (or was accepted although the annotations differ)", {"op": sym})
+    hs = mk_qubit("th", gen.random_qubit_terms(pr, NQ, pr.randint(1, 3), identity=False), ("JW", False))
+    hs -= hs
+    ctx.check("qubit_value", refsim.dist(qmatop(hs), np.zeros((2 ** NQ, 2 ** NQ))) < 1e-10, "H -= H on a QubitHamiltonian does not give the zero operator",
+              {"terms_after": snap(hs)})
     if all(len(t) >= 2 for t in pool_terms[:2]) and log:
         ctx.nontrivial(("qubit", kinds, sorted(map(repr, pool_terms)), log))
     ctx.sample({"sub": "qubit", "kinds": kinds, "attrs": attrs, "log": log})
